@@ -333,7 +333,7 @@ def path_natives(as_path):
         return list(v.chars) if isinstance(v, SymStr) else list(v.text.encode())
 
     def comps(chars):
-        root = bool(chars) and chars[0] == 47
+        root = bool(chars) and isinstance(chars[0], int) and chars[0] == 47
         parts, cur = [], []
         for c in chars:
             if isinstance(c, int) and c == 47:
